@@ -33,6 +33,14 @@ def request_menu():
         if i:
             s["advance"]["blocks"] = s["advance"]["blocks"][::-1][:3 - i] or s["advance"]["blocks"][:1]
             s["advance"]["brothers"] = [[] for _ in s["advance"]["blocks"]]
+        # the very same transaction, key and authorization for every client, only the input differs
+        s["signsame"] = json.loads(json.dumps(N["sign-legacy"]))
+        s["signsame"]["message"]["input"] = i % 2
+        # an advance the device ends with PARTIAL success
+        s["advpartial"] = json.loads(json.dumps(N["advance-partial"]))
+        if i:
+            s["advpartial"]["blocks"] = s["advpartial"]["blocks"][:1]
+            s["advpartial"]["brothers"] = [[]]
         s["state"] = {"command": "blockchainState", "version": 5}
         s["heartbeat"] = {"command": "signerHeartbeat", "version": 5, "udValue": rng.bytes(16).hex()}
         s["uihb"] = {"command": "uiHeartbeat", "version": 5, "udValue": rng.bytes(32).hex()}
@@ -40,7 +48,7 @@ def request_menu():
     return slots
 
 
-KINDS = ["sign", "advance", "state", "heartbeat", "pubkey", "hash", "uihb"]
+KINDS = ["sign", "advance", "state", "heartbeat", "pubkey", "hash", "uihb", "signsame", "advpartial"]
 
 
 class C12(Check):
@@ -67,14 +75,22 @@ class C12(Check):
         self.bound = 3 if self.thorough else 2
         self.slots = request_menu()
         self.solo = {}
+        self.pre_violations = []
         for i, s in enumerate(self.slots):
             for k, req in s.items():
                 dev = PowHsm(seed=b"c12")
+                dev.advance_final = "partial"
                 w = World(dev)
                 proto = harness.make_protocol(w)
                 base = len(w.log)
                 o = harness.handle_line(proto, json.dumps(req).encode())
                 if o.exc is not None or not isinstance(o.reply, dict) or o.reply.get("errorcode") not in (0, 1):
+                    self.pre_violations.append(Violation(
+                        "C12", "C12:solo-request-fails:%s" % k, {"cmds": [k], "frag": [1]}, None,
+                        {"reply": o.raw, "exc": o.exc}, {"errorcode": "0/1"}, "solo"))
+                    self.solo[(i, k)] = (o.raw, [e[2] for e in w.log[base:] if e[0] == "x"])
+                    continue
+                if False:
                     raise HarnessError("solo run of %s fails: %r %r" % (k, o.raw, o.exc))
                 self.solo[(i, k)] = (o.raw, [e[2] for e in w.log[base:] if e[0] == "x"])
 
@@ -86,7 +102,8 @@ class C12(Check):
         cs = []
         for a, b in itertools.combinations_with_replacement(KINDS, 2):
             cs.append({"cmds": [a, b], "frag": [1, 2]})
-            cs.append({"cmds": [a, b], "frag": [2, 1]})
+            if self.thorough or (a, b) in (("sign", "advance"), ("state", "heartbeat"), ("pubkey", "hash")):
+                cs.append({"cmds": [a, b], "frag": [2, 1]})
         if self.thorough:
             for t in itertools.combinations_with_replacement(KINDS[:5], 3):
                 cs.append({"cmds": list(t), "frag": [1, 2, 1]})
@@ -100,6 +117,7 @@ class C12(Check):
 
         def run(ctx):
             dev = PowHsm(seed=b"c12")
+            dev.advance_final = "partial"
             w = World(dev)
             proto = harness.make_protocol(w)
             frags = []
